@@ -436,3 +436,56 @@ REG['C17'] = Spec('C17', c17_jobs, tags=['C01', 'C02', 'C03', 'C04', 'C05', 'C07
     '(the native replay/validation binaries are also built with g++, which is sampling and is not counted).',
     bounds=lambda tier: {'standards': STDS + ['c++20 -DGCH_DISABLE_CONCEPTS'], 'compiler': 'clang++-14 only (GCC code cannot be encoded: no IR)'},
     level_text='translation-validation style: each language-standard build of the same program is decided (bounded, by cbmc) equivalent to one common model, hence to each other')
+
+# ---------------------------------------------------------------- C13: bulk-copy fast paths unobservable; conversions are value conversions
+from .jobs import conv_job
+CONV_PAIRS = [('int', 'unsigned'), ('unsigned', 'int'), ('short', 'int'), ('int', 'short'), ('unsigned char', 'int'), ('int', 'unsigned char'),
+              ('signed char', 'unsigned char'), ('char', 'signed char'), ('bool', 'int'), ('int', 'bool'), ('unsigned char', 'bool'), ('bool', 'unsigned char'),
+              ('UEnum', 'unsigned'), ('UEnum', 'int'), ('SmallEnum', 'unsigned char'), ('int', 'long long'), ('long', 'long long'), ('unsigned long long', 'long'),
+              ('float', 'int'), ('int', 'float'), ('double', 'int'), ('double', 'float')]
+PTR_PAIRS = [('Derived*', 'Base1*'), ('Derived*', 'Base2*'), ('Derived*', 'void*'), ('Derived*', 'const Derived*'), ('Base2*', 'const void*'), ('Base2*', 'const Base2*')]
+def c13_jobs(tier):
+    js = []
+    # (i) twin: the trivially copyable twin of the instrumented type against the same model (bulk-copy paths), exact-size blocks as red zones
+    for op in OPS_ALL:
+        for (n, cap) in ([(2, 2), (2, 4)] if tier == 'quick' else cells(tier)):
+            if cap == n and cap > 0:
+                # inline representation of a struct element: the element buffer aliases the container object; pin the size (measured: > 10 GB otherwise)
+                for sz in range(0, cap + 1):
+                    if sz == 0 and op in ('insert_il', 'resize'): continue   # measured: > 10 GB; sizes 1..N cover the same code
+                    js.append(ops_job(op, 'Tv', n, cap, maxcnt=2 if tier == 'quick' else 3, size=sz))
+            else:
+                js.append(ops_job(op, 'Tv', n, cap, maxcnt=2 if tier == 'quick' else 3))
+    for op in ['copy_ctor', 'move_ctor', 'copy_assign', 'move_assign', 'swap', 'assign_copy', 'assign_move', 'append_copy', 'append_move']:
+        for (na, nb, ca, cb) in ([(2, 2, 2, 4), (2, 2, 4, 2), (2, 3, 2, 5)] if tier == 'quick' else SAME_CELLS + CROSS_CELLS):
+            if op.startswith('append') and ca == na and ca > 0:
+                for sz in range(0, ca + 1): js.append(two_job(op, 'Tv', na, nb, ca, cb, sizea=sz))
+            else:
+                js.append(two_job(op, 'Tv', na, nb, ca, cb))
+        js.append(two_job(op, 'Tv', 2, 2, 4, 4, ideq=0))
+    for op in ['ctor_range', 'assign_range', 'insert_range', 'append_range', 'ctor_count', 'ctor_count_val', 'ctor_il']:
+        js.append(rng_job(op, 'Tv', 2, 2 if op.startswith('ctor') else 4, itk=3)); js.append(rng_job(op, 'Tv', 2, 2 if op.startswith('ctor') else 4, itk=1))
+    # (ii) conversions
+    for (s, d) in CONV_PAIRS:
+        for via in ((0, 1, 2) if tier != 'quick' else ((0, 2) if (s, d) in (('int', 'unsigned'), ('long', 'long long'), ('short', 'int'), ('float', 'int')) else (0,))):
+            for part in (1, 2, 3, 4):
+                if part == 2 and ('long' in s and 'long' in d): continue   # measured: > 10 GB for 64-bit to 64-bit insert; covered by parts 1, 3, 4
+                if part == 3 and via != 0: continue
+                js.append(conv_job(s, d, via=via, part=part))
+        if tier == 'quick': js.append(conv_job(s, d, via=1, part=1))
+    for (s, d) in PTR_PAIRS:
+        for via in (0, 2):
+            for part in (1, 3, 4) if tier == 'quick' else (1, 2, 3, 4):
+                if part == 3 and via != 0: continue
+                js.append(conv_job(s, d, via=via, ptr=1, part=part))
+    for std in ('c++20',):
+        for (s, d) in [('long', 'long long'), ('int', 'unsigned'), ('short', 'int')]:
+            js.append(conv_job(s, d, via=0, part=1, std=std)); js.append(conv_job(s, d, via=1, part=4, std=std))
+    return _nn(js)
+REG['C13'] = Spec('C13', c13_jobs, tags=['C13', 'C01'], memsafe=True, compile_failure_is_violation=True, explanation=
+    '(i) the trivially copyable twin Tv of the instrumented element type is driven through the same one-step harnesses against the same sequence model as Tr (C01), so memcpy/memmove/fill shortcuts change no result; '
+    'heap blocks are exact-size objects, so any access outside the elements\' storage is a cbmc bounds violation (typed-loop lowering of memcpy keeps those checks exact). '
+    '(ii) construct / assign / insert / append / emplace from a contiguous range (raw pointers and small_vector iterators: what selects the bulk-copy path) and from forward iterators of a DIFFERENT source type: every stored '
+    'element must equal static_cast<T>(source) for all source values: integral pairs of equal and different width and signedness, bool, enums, char kinds, floating point, pointer pairs including Derived* -> second base (offset adjustment), void*. '
+    'A source/destination pair that the generic path accepts but that does not compile on the bulk-copy path is reported as a violation (front-end decided).',
+    bounds=lambda tier: {'conversion_range_length': '<= 3 (2 for insert)', 'source_values': 'all 2^32 inputs mapped into the source type', 'archetypes': 'minimal-requirement archetype grid not built (see DESIGN.md)'})
